@@ -6,8 +6,8 @@ ASSUME = [
     "decidable form: on every symbolic path of one call, (1) every vec!/resize/reserve argument is bounded by 65536 bytes (packet) or the 10 MiB XML cap, and (2) the call finishes within the "
     "symbolic executor's step budget (20000 MIR blocks) — a satisfiable path that exceeds it is reported as unbounded work and replayed natively under a 20 s / 3 GiB limit",
     "after `records` points the raw iterator yields None without touching the device (decided from an arbitrary state with read >= records); roxmltree's memory use is outside",
-    "Blob::read with ANY descriptor (offset and length any u64) over a device of <= 2 pages: every allocation (Vec::with_capacity / vec! / resize / reserve argument) is bounded by the device "
-    "size + 64 KiB; native replay observes the growth of the process's VmPeak across the call (only growth >= 128 MiB is attributed to the call, so a second, weaker claim asks for a witness in the 256 MiB..4 GiB window)",
+    "Blob::read with ANY descriptor (offset and length any u64) over a device of <= 2 pages: every allocation (Vec::with_capacity / vec! / resize / reserve argument) is bounded by 4 x the device "
+    "size + 1 MiB; native replay observes the growth of the process's VmPeak across the call (only growth >= 128 MiB is attributed to the call, so a second, weaker claim asks for a witness in the 256 MiB..4 GiB window)",
     "inputs: any packet bytes, any descriptor, any device content; prototype shapes concrete incl. the all-constant prototype",
 ]
 
